@@ -187,7 +187,8 @@ fn run_case(c: Option<u128>, s: Option<u128>, latency: u128) -> String {
             tokio::time::sleep(dur(latency)).await;
             Ok::<_, tonic::Status>(http::Response::new(()))
         });
-        let mut svc = GrpcTimeoutHook::new(inner, s.map(dur));
+        // as in transport::Server: RecoverError (error → trailers-only response) around GrpcTimeout
+        let mut svc = tonic::service::RecoverError::new(GrpcTimeoutHook::new(inner, s.map(dur)));
         let mut treq = tonic::Request::new(());
         if let Some(c) = c {
             treq.set_timeout(dur(c));
@@ -198,10 +199,13 @@ fn run_case(c: Option<u128>, s: Option<u128>, latency: u128) -> String {
         let fut = svc.ready().await.unwrap().call(req);
         match tokio::time::timeout(Duration::from_secs(1_000_000), fut).await {
             Err(_) => "hang".into(),
-            Ok(Ok(_)) => "inner".into(),
+            Ok(Ok(resp)) => match tonic::Status::from_header_map(resp.headers()) {
+                None => "inner".into(),
+                Some(st) => format!("timeout {} {}", st.code() as i32, hex(st.message().as_bytes())),
+            },
             Ok(Err(e)) => {
                 let st = tonic::Status::from_error(e);
-                format!("timeout {} {}", st.code() as i32, hex(st.message().as_bytes()))
+                format!("unrecovered {} {}", st.code() as i32, hex(st.message().as_bytes()))
             }
         }
     })
